@@ -241,7 +241,8 @@ class Interp:
         if not sd or sd[1] != 'term' or not sd[2][3]:
             return None
         nm = (callee(sd[2])[1] or '').split('::')[-1]
-        if nm in ('iter', 'bytes', 'chars', 'char_indices', 'iter_mut'):
+        if nm in ('iter', 'bytes', 'iter_mut'):
+            # bytes only: a count of `chars()` is not a byte offset (it is <= the length, but not a character boundary)
             return self.len_of(sd[2][3][0])
         if nm in self.ELEMENTWISE:
             return self._iter_base_len(sd[2][3][0], depth + 1)
@@ -521,7 +522,7 @@ class Interp:
 
         if short in ('count', 'position', 'rposition') and dl is not None and args and args[0][0] in ('c', 'm'):
             # `slice.iter().take_while(p).count()` / `.filter(p).count()`: a count of elements of the slice, so at most its length
-            # (bytes of a str: `bytes()` / `as_bytes().iter()`; chars().count() <= byte length as well)
+            # (bytes of a str: `bytes()` / `as_bytes().iter()`; a count of chars() is deliberately not treated as an offset)
             base = self._iter_base_len(args[0])
             if short == 'count' and is_int(dt):
                 x = self.v(('i', dl))
